@@ -704,3 +704,24 @@ mut("orphaned_last_fragment_completes_a_record", ["C15", "C12", "C16"], "TS-1", 
                         }""",
     new="""                        data_buffer.extend(record.data);
                         return Ok((data_buffer, false));""")
+
+# ---- LCK-5
+mut("finalize_inputs_under_version_read_guard", ["C09"], "LCK-5", file="src/versioning/version_set.rs",
+    old="""                compaction_manifest
+                    .get_mut_compaction_level_files()
+                    .append(&mut new_compaction_files);
+            }
+        }
+
+        self.release_version(current_version_node);
+        compaction_manifest.finalize_compaction_inputs();
+""",
+    new="""                compaction_manifest
+                    .get_mut_compaction_level_files()
+                    .append(&mut new_compaction_files);
+            }
+            compaction_manifest.finalize_compaction_inputs();
+        }
+
+        self.release_version(current_version_node);
+""", note="finalize_compaction_inputs takes the node's write lock while pick_compaction still holds its read guard: self-deadlock")
